@@ -365,3 +365,40 @@ class Expander:
                     seen.add(n.id)
                     todo += self.defs.get(n.id, []) + self.flows.get(n.id, [])
         return out
+
+
+def assignment_leaves(func_node, name, mapping=None):
+    """Decision structure of the values a plain local may take: {(frozenset of (condition text, polarity)), value text}
+    reconstructed from if/else statements and conditional expressions; names alpha-renamed through `mapping`."""
+    out = set()
+
+    def cond_key(t):
+        t = alpha(t, mapping) if mapping else t
+        e, pol = strip_not(t)
+        ct, p2 = canon_atom(e)
+        return (ct, pol == p2)
+
+    def expr_leaves(e, conds):
+        if isinstance(e, ast.IfExp):
+            k = cond_key(e.test)
+            expr_leaves(e.body, conds | {k})
+            expr_leaves(e.orelse, conds | {(k[0], not k[1])})
+        else:
+            out.add((frozenset(conds), norm(alpha(e, mapping) if mapping else e)))
+
+    def walk(stmts, conds):
+        for s in stmts:
+            if isinstance(s, ast.Assign) and len(s.targets) == 1 and isinstance(s.targets[0], ast.Name) and s.targets[0].id == name:
+                expr_leaves(s.value, conds)
+            elif isinstance(s, ast.If):
+                k = cond_key(s.test)
+                walk(s.body, conds | {k})
+                walk(s.orelse, conds | {(k[0], not k[1])})
+            elif isinstance(s, (ast.For, ast.While, ast.With, ast.Try)):
+                for fld in ("body", "orelse", "finalbody"):
+                    walk(getattr(s, fld, []) or [], conds)
+                for h in getattr(s, "handlers", []) or []:
+                    walk(h.body, conds)
+
+    walk(func_node.body, frozenset())
+    return out
